@@ -203,7 +203,8 @@ Definition authorize (cfg : config) (s : state) (a : authz) : state * obs :=
 
 (* ------------------------------------------------------------------ pushed authorization requests *)
 (* NewPushedAuthorizeRequest + PushedAuthorizeHandler: the caller authenticates as [auth]; the request is
-   processed for the client named by the body's client_id (the authenticated client when absent) *)
+   validated for the client named by the body's client_id (the authenticated client when absent) and
+   refused unless that is the authenticated client *)
 Definition push (cfg : config) (s : state) (auth : option nat) (body_client : option nat) (has_request_uri : bool)
            (a : authz) : state * obs :=
   match auth with
@@ -220,6 +221,8 @@ Definition push (cfg : config) (s : state) (auth : option nat) (body_client : op
       | Some cl =>
           if negb (scopes_ok cfg cl (az_scopes a)) then fail s "invalid_scope"
           else if negb (aud_ok cfg (cl_aud cl) (az_aud a)) then fail s "invalid_request"
+          (* the pushed request must belong to the authenticated client *)
+          else if negb (Nat.eqb cid c) then fail s "invalid_request"
           else
             let (rid, s1) := fresh_rid s in
             let (k, s2) := mint s1 KPar rid in
@@ -245,7 +248,9 @@ Definition authorize_par (cfg : config) (s : state) (client_param : nat) (uri : 
   | None => fail s "invalid_request_uri"
   | Some pr =>
       let s1 := set_store s (delete_par (st s) k) in
-      if negb (Nat.eqb client_param (r_client pr)) then fail s1 "invalid_request"
+      (* the pushed context is only valid for its advertised lifetime *)
+      if before (r_at pr + cf_par_life cfg)%Z (now s) then fail s1 "invalid_request_uri"
+      else if negb (Nat.eqb client_param (r_client pr)) then fail s1 "invalid_request"
       else
         authorize_core cfg s1 (r_cl pr)
           {| az_client := r_client pr; az_redirect := r_redirect pr; az_scopes := r_rscopes pr; az_granted := az_granted a;
